@@ -105,6 +105,7 @@ func main() {
 			g.r = r
 			r.header()
 			nops := *minOps + rng.Intn(*maxOps-*minOps+1)
+			g.planExport(nops)
 			for j := 0; j < nops; j++ {
 				r.apply(g.next())
 			}
